@@ -86,23 +86,23 @@ NOT_BUILT = "not claimed yet: the rules planned for it in DESIGN.md §4 are not 
 
 # clauses added after seed rounds 2c/3 (DESIGN.md §4 "Rules added by seed round 3")
 ADDED = {
- "C01": " Also: ReadAll returns memory it allocated (no type-asserted reader buffer); the fs metadata record name hashes the unmodified key; the front end and the fs/bolt backends keep no serving-time in-memory copy of stored state.",
- "C02": " Also: no serving-time cache of directories, buckets or answers in the front end and the fs/bolt backends; a bolt cursor deletes only the record whose key was compared equal with the key sought; the fs delete path never hands a directory to Remove.",
- "C03": " Also: a strings/bytes Index result separates found from not found at -1 (no `> 0`); bolt cursor moves are examined by the loop; the s3mem listing iterator is positioned only at the marker.",
- "C04": " Also: every Seek of the s3mem listing iterator goes to page.Marker itself; start-after never overrides a continuation token.",
- "C05": " Also: no backend call of a handler is guarded by the bucket's versioning configuration (version ids stay addressable while suspended).",
- "C06": " Also: no error return of CompleteMultipartUpload is reachable after a store into the upload's parts; xmlDecodeBody decodes the whole request body.",
+ "C01": " Also: ReadAll returns memory it allocated (no type-asserted reader buffer); the fs metadata record name hashes the unmodified key; the front end and the fs/bolt backends keep no serving-time in-memory copy of stored state. Error discipline in path form (no call's error reaches a return untested, none is swallowed after being found non-nil); the copy handler copies the pair it examined.",
+ "C02": " Also: no serving-time cache of directories, buckets or answers in the front end and the fs/bolt backends; a bolt cursor deletes only the record whose key was compared equal with the key sought; the fs delete path never hands a directory to Remove. The fs delete path prunes from the path it removed, deletes metadata after the file and climbs on after each successful Remove; the copy handler's source/destination wiring; an empty body is accepted; error discipline in path form.",
+ "C03": " Also: a strings/bytes Index result separates found from not found at -1 (no `> 0`); bolt cursor moves are examined by the loop; the s3mem listing iterator is positioned only at the marker. The listing request's delimiter and prefix derive from their own query parameters only.",
+ "C04": " Also: every Seek of the s3mem listing iterator goes to page.Marker itself; start-after never overrides a continuation token. The marker's matched part is remembered only when it lies inside a common prefix; the iterator wrapper reports a failed Seek to the next Next; continuation markers are serialised under the protocol's element names.",
+ "C05": " Also: no backend call of a handler is guarded by the bucket's versioning configuration (version ids stay addressable while suspended). promote stores the newest archived entry as current and removes it before reporting success, a key is dropped only when nothing was left; version-addressed calls in the memory backend are not gated by the versioning status.",
+ "C06": " Also: no error return of CompleteMultipartUpload is reachable after a store into the upload's parts; xmlDecodeBody decodes the whole request body. (shared) merging metadata never overrides a value the request sent.",
  "C07": " Also: no serving-time mutable map / sync.Map in the stateless layers; releases through unlock function values are modelled.",
- "C08": " Also (shared): nothing is wrapped between the body / chunk decoder and the hashing reader; a refused complete has not modified the pending upload.",
- "C09": " Also (shared): every mutex acquire is released on every path (L1) and the lock-order graph is acyclic (L3) — a kept lock or a cycle is a hang.",
- "C10": " Also: every file the fs backends create under a name of their own choosing is created exclusively (found and repaired F31); the keys of a multi-object delete reach the backend untransformed; the host middlewares only prepend the bucket to the path.",
- "C11": " Also: in the fs backends the file positioned at the range start is handed to nothing but the length-limiting wrapper.",
+ "C08": " Also (shared): nothing is wrapped between the body / chunk decoder and the hashing reader; a refused complete has not modified the pending upload. Error discipline in path form; every sign test of a parsed length is `< 0`.",
+ "C09": " Also (shared): every mutex acquire is released on every path (L1) and the lock-order graph is acyclic (L3) — a kept lock or a cycle is a hang. A pointer local that is nil on a feasible edge is dereferenced only under a non-nil guard; a skiplist lookup's result is asserted only where the lookup reported found.",
+ "C10": " Also: every file the fs backends create under a name of their own choosing is created exclusively (found and repaired F31); the keys of a multi-object delete reach the backend untransformed; the host middlewares only prepend the bucket to the path. baseFs is read only in construction; an own-named file is removed only after its exclusive create succeeded; an upload id is honoured only for its own bucket and key; the fs delete path works on the addressed path.",
+ "C11": " Also: in the fs backends the file positioned at the range start is handed to nothing but the length-limiting wrapper. With a range present the fs backends' length-limiting wrapper depends on no further condition on the range.",
  "C12": " Also (shared): ReadAll drives the decoder to the end of the stream for every declared size, including 0.",
- "C13": " Also (shared): every stored version carries a fresh non-empty id from the generator (the id is the page marker).",
- "C14": " Also: entries are removed from uploader.buckets only if a missing entry lists as empty.",
- "C15": " Also: constructors reach no destructive storage call; the ETag header derives from obj.Hash alone; no serving-time cache in front of the stores; a metadata path flag that was given is always used.",
+ "C13": " Also (shared): every stored version carries a fresh non-empty id from the generator (the id is the page marker). Continuation markers are serialised under the protocol's element names.",
+ "C14": " Also: entries are removed from uploader.buckets only if a missing entry lists as empty. ListParts appends only below the max-parts bound, counts every listed part and resumes from the part listed last; the part-number-marker clamp does not cut below the largest part number; element names of the markers.",
+ "C15": " Also: constructors reach no destructive storage call; the ETag header derives from obj.Hash alone; no serving-time cache in front of the stores; a metadata path flag that was given is always used. Error discipline in path form; a delete removes the object file before its metadata record; scratch files are removed only after they were claimed.",
  "C16": " Also: each addressing option writes only its own field; Server() installs the base middleware on the base list alone; the Host header enters the suffix comparison untransformed.",
- "C17": " Also: the router compares the bucket name only with the empty string and hands the untransformed path segment to the validator.",
+ "C17": " Also: the router compares the bucket name only with the empty string and hands the untransformed path segment to the validator. baseFs (the backend's own directories) is never consulted for bucket names.",
 }
 
 def main():
